@@ -345,8 +345,15 @@ class TypeChecker(walkers.dag.DagWalker):
         if to_skip or right.lower_bound != right.upper_bound:
             pass
         else:
-            left_lower = -float("inf") if left.lower_bound is None else left.lower_bound
-            left_upper = float("inf") if left.upper_bound is None else left.upper_bound
+            # exact rational arithmetic: int / int would be a (rounded) float division
+            left_lower = (
+                -float("inf")
+                if left.lower_bound is None
+                else Fraction(left.lower_bound)
+            )
+            left_upper = (
+                float("inf") if left.upper_bound is None else Fraction(left.upper_bound)
+            )
             right = right.lower_bound
             lower = min(left_lower / right, left_upper / right)
             upper = max(left_lower / right, left_upper / right)
@@ -376,7 +383,7 @@ class TypeChecker(walkers.dag.DagWalker):
         if t is None:
             return None
 
-        if t.is_bool_type():
+        if any(x is not None and x.is_bool_type() for x in args):
             raise UPTypeError(
                 "The expression '%s' is not well-formed."
                 "Equality operator is not supported for Boolean"
@@ -385,21 +392,20 @@ class TypeChecker(walkers.dag.DagWalker):
         for x in args:
             if x is None:
                 return None
-            elif (
-                t.is_user_type()
-                and t != x
-                and not t.is_compatible(x)
-                and not x.is_compatible(t)
-            ):
-                # check if t and x have at least one common ancestor
-                t = cast(_UserType, t)
-                if x.is_user_type():
-                    x = cast(_UserType, x)
-                    x_ancestors = set(x.ancestors)
-                    if all(t_ancestor not in x_ancestors for t_ancestor in t.ancestors):
+            elif t.is_user_type() or x.is_user_type():
+                # objects can only be compared with objects
+                if not (t.is_user_type() and x.is_user_type()):
+                    return None
+                if t != x and not t.is_compatible(x) and not x.is_compatible(t):
+                    # check if t and x have at least one common ancestor
+                    x_ancestors = set(cast(_UserType, x).ancestors)
+                    if all(
+                        t_ancestor not in x_ancestors
+                        for t_ancestor in cast(_UserType, t).ancestors
+                    ):
                         return None
-            elif (t.is_int_type() or t.is_real_type()) and not (
-                x.is_int_type() or x.is_real_type()
+            elif not all(
+                y.is_int_type() or y.is_real_type() or y.is_time_type() for y in (t, x)
             ):
                 return None
         return BOOL
